@@ -188,4 +188,55 @@ theorem mkBattery_default_ok (energy stay V period mp : K) (h : 0 ≤ energy) :
   rw [if_neg (not_lt.mpr h)]
   exact ⟨_, rfl⟩
 
+/-! ### structure of `convertSample` -/
+
+theorem convertSample_some {idx : Nat} {s : Sample K} {period V mp : K} {maxLen : Option K}
+    {bp : BattParams K} {ff : Bool} {e : Ev K} (hp : 0 < period)
+    (h : convertSample idx s period V mp maxLen bp ff = .ok (some e)) :
+    0 ≤ s.arrival ∧ 0 < s.duration ∧ 0 < s.energy ∧
+    e.arrival = pyTrunc (s.arrival * (60 / period)) ∧
+    e.departure = pyTrunc ((s.arrival + sampleDur s.duration maxLen) * (60 / period)) ∧
+    e.estDeparture = e.departure ∧
+    e.session = s!"session_{idx}" ∧ e.station = s!"station_{idx}" ∧
+    e.requested = (if ff then pyMin s.energy (mp * sampleDur s.duration maxLen) else s.energy) ∧
+    mkBattery bp e.requested (sampleDur s.duration maxLen) V period mp = .ok e.batt := by
+  unfold convertSample at h
+  rw [if_neg (by intro hh; exact hh.2 hp)] at h
+  simp only [Nat.cast_ofNat] at h
+  split at h
+  · exact absurd h (by simp)
+  · rename_i hval
+    simp only [not_or, not_lt, not_le] at hval
+    split at h
+    · exact absurd h (by simp)
+    · rename_i batt hb
+      injection h with h
+      injection h with h
+      subst h
+      exact ⟨hval.1, hval.2.1, hval.2.2, rfl, rfl, rfl, rfl, rfl, rfl, hb⟩
+
+theorem convertSample_none {idx : Nat} {s : Sample K} {period V mp : K} {maxLen : Option K}
+    {bp : BattParams K} {ff : Bool} (hp : 0 < period)
+    (h : convertSample idx s period V mp maxLen bp ff = .ok none) :
+    s.arrival < 0 ∨ s.duration ≤ 0 ∨ s.energy ≤ 0 := by
+  unfold convertSample at h
+  rw [if_neg (by intro hh; exact hh.2 hp)] at h
+  simp only [Nat.cast_ofNat] at h
+  split at h
+  · assumption
+  · split at h
+    · exact absurd h (by simp)
+    · injection h with h; exact absurd h (by simp)
+
+theorem sampleDur_le (d L : K) : sampleDur d (some L) ≤ L := by
+  simp only [sampleDur]; split
+  · exact le_refl _
+  · exact not_lt.mp ‹_›
+
+theorem sampleDur_nonneg (d : K) (m : Option K) (hd : 0 ≤ d) (hL : ∀ L, m = some L → 0 ≤ L) :
+    0 ≤ sampleDur d m := by
+  cases m with
+  | none => exact hd
+  | some L => simp only [sampleDur]; split; exact hL L rfl; exact hd
+
 end Acn.SessionsL
